@@ -35,7 +35,12 @@ def meta(tier, seed):
                   "every continuation; training and querying the copy leaves the original's outputs unchanged; "
                   "protocol-4 pickles restored in a fresh interpreter give the same outputs as the original in-process",
         "bounds": {"bfs_depth": 2 if tier == "quick" else "3 (int labels), 2 (str labels)", "continuation_depth": 1,
-                   "methods": (QUICK_METHODS if tier == "quick" else METHODS) + ["pickle4 -> fresh interpreter"], "labels": ["int", "str"],
+                   "methods": (QUICK_METHODS if tier == "quick" else METHODS) + ["pickle4 -> fresh interpreter"],
+                   "labels": "int for every combination; str for %s" % (
+                       "every combination" if tier != "quick" else ["%s/%s" % c for c in QUICK_STR]),
+                   "restoring_interpreters": "PYTHONHASHSEED=1 for numeric labels; for str labels one interpreter per distinct "
+                                             "iteration order of the label sets found among hash seeds 1..48: %r (the parent "
+                                             "runs with PYTHONHASHSEED=0)" % (order_seeds("str"),),
                    "n_jobs": "1; additionally 2 (joblib model) for ts/tree, eg5/tree, ts/rad, eg5/clu, lts1/knn at depth 2",
                    "binarizer_histories": "Thompson Sampling with / without a binarizer under %s: every history of <= 3 "
                                           "calls over %d operations (add_arm with a binarizer, non-binary rewards), "
@@ -46,12 +51,47 @@ def meta(tier, seed):
     }
 
 
+_ORDER_SEEDS = {}
+
+
+def order_seeds(labels):
+    """Hash seeds for the restoring interpreters.  The only way the hash seed reaches a bandit is the iteration order of
+    sets / dicts keyed by str labels: probe seeds 1..48 and keep the first seed for every distinct pair (order of the set
+    of the initial labels, order of the set with the added label) - all 2 x 6 orders that occur are then realised by some
+    restoring interpreter.  Numeric labels hash to themselves: one seed."""
+    if labels not in ("str", "mixed"):
+        return ["1"]
+    if labels not in _ORDER_SEEDS:
+        init, extra = S.LABELS[labels]
+        strs = [a for a in list(init) + [extra] if isinstance(a, str)]
+        code = "print([list(set(%r)), list(set(%r))])" % (strs[:-1] or strs, strs)
+        seen, keep = set(), []
+        for hs in range(1, 49):
+            r = subprocess.run([sys.executable, "-c", code], env=dict(os.environ, PYTHONHASHSEED=str(hs)),
+                               capture_output=True, text=True)
+            sig = r.stdout.strip()
+            if r.returncode == 0 and sig not in seen:
+                seen.add(sig)
+                keep.append(str(hs))
+        _ORDER_SEEDS[labels] = keep or ["1"]
+    return _ORDER_SEEDS[labels]
+
+
+# quick tier: str labels (whose set order depends on the interpreter's hash seed) for a cross-section of the combinations
+QUICK_STR = [("eg0", "none"), ("ucb", "none"), ("ts", "none"), ("lg", "none"), ("lts", "none"), ("eg0", "rad"), ("ucb", "knn"),
+             ("eg0", "clu"), ("ucb", "lsh"), ("eg0", "tree")]
+
+
 def shards(tier, seed):
     out = []
     for ln, nn in A.combos(lints1=True):
         for labels in (("int",) if tier == "quick" else ("int", "str")):
             out.append({"ln": ln, "nn": nn, "labels": labels, "depth": 2 if (tier == "quick" or labels == "str") else 3,
-                        "cdepth": 1, "all_methods": tier != "quick", "seed": 13 + seed})
+                        "cdepth": 1, "all_methods": tier != "quick", "seed": 13 + seed, "hashseeds": order_seeds(labels)})
+    if tier == "quick":
+        for ln, nn in QUICK_STR:
+            out.append({"ln": ln, "nn": nn, "labels": "str", "depth": 2, "cdepth": 1, "all_methods": False, "seed": 13 + seed,
+                        "hashseeds": order_seeds("str")})
     # bandits configured with two jobs: a copy must keep every hyper-parameter, the number of jobs included
     for ln, nn in (("ts", "tree"), ("eg5", "tree"), ("ts", "rad"), ("eg5", "clu"), ("lts1", "knn")):
         out.append({"ln": ln, "nn": nn, "labels": "int", "depth": 2, "cdepth": 1, "all_methods": tier != "quick",
@@ -221,12 +261,12 @@ def _run_shard(shard):
 
     S.explore(cfg, labels, shard["depth"], acc, visit, query=True)      # states reached through predictions too
 
-    if jobs:
+    for hashseed in (shard.get("hashseeds") or ["1"]) if jobs else []:
         tmp = tempfile.mkdtemp(prefix="c19_")
         try:
             jp, op_ = os.path.join(tmp, "jobs.pkl"), os.path.join(tmp, "out.pkl")
             pickle.dump(jobs, open(jp, "wb"))
-            envv = dict(os.environ, PYTHONHASHSEED="1")     # a different hash seed on purpose
+            envv = dict(os.environ, PYTHONHASHSEED=hashseed)     # hash seeds other than the parent's on purpose
             r = subprocess.run([sys.executable, "-m", "mcx.child", jp, op_], cwd=env.VERIF, env=envv,
                                capture_output=True, text=True)
             if r.returncode != 0:
@@ -239,16 +279,17 @@ def _run_shard(shard):
         for (hist, conts, expected), res in zip(job_meta, got):
             if isinstance(res, dict):
                 acc.violation("%s/%s fresh-process restore" % (ln, nn), {"cfg": cfg, "history": hist, "method": "child",
-                                                                         "cont": []}, "restore failed: %r" % res)
+                                                                         "hashseed": hashseed, "cont": []},
+                              "restore failed: %r" % res)
                 continue
             for cont, want, have in zip(conts, expected, res):
                 acc.traces += 1
-                acc.case(("%s/%s/%s/%s" % (ln, nn, labels, "|".join(map(str, hist))), "child", str(cont))
+                acc.case(("%s/%s/%s/%s" % (ln, nn, labels, "|".join(map(str, hist))), "child", hashseed, str(cont))
                          if len(hist) >= 2 else None)
                 if not ops.same(want, have):
                     acc.violation("%s/%s fresh-process cont=%s" % (ln, nn, "+".join(o[0] for o in cont)),
-                                  {"cfg": cfg, "history": hist, "method": "child", "cont": cont},
-                                  "pickle restored in a fresh interpreter differs after %r: original %r, restored %r" % (
+                                  {"cfg": cfg, "history": hist, "method": "child", "hashseed": hashseed, "cont": cont},
+                                  "pickle restored in a fresh interpreter (PYTHONHASHSEED=" + hashseed + ") differs after %r: original %r, restored %r" % (
                                       [o[0] for o in cont], want, have))
     return acc.result()
 
@@ -268,7 +309,7 @@ def replay(w):
             jp, op_ = os.path.join(tmp, "jobs.pkl"), os.path.join(tmp, "out.pkl")
             pickle.dump([(pickle.dumps(original(cfg, hist), protocol=4), [w["cont"]], qs)], open(jp, "wb"))
             subprocess.run([sys.executable, "-m", "mcx.child", jp, op_], cwd=env.VERIF,
-                           env=dict(os.environ, PYTHONHASHSEED="1"), capture_output=True)
+                           env=dict(os.environ, PYTHONHASHSEED=str(w.get("hashseed", "1"))), capture_output=True)
             got = pickle.load(open(op_, "rb"))[0]
         finally:
             for f in os.listdir(tmp):
